@@ -7,6 +7,7 @@ Driver for C12: replays an implementation transcript (harness/src/c12.rs) throug
 i.e. the very definitions the theorems in Props/C12.lean are about.
 -/
 import Desverif.Model.ModTree
+import Desverif.Model.ModRun
 import Desverif.Spec.Preorder
 import Driver.Common
 namespace Driver.C12
@@ -40,11 +41,6 @@ def bytesLt : Bytes → Bytes → Bool
 def insertSorted (x : Bytes) : List Bytes → List Bytes
   | [] => [x]
   | y :: ys => if x = y then y :: ys else if bytesLt x y then x :: y :: ys else y :: insertSorted x ys
-
-/-- stable insertion by time -/
-def insertByTime (x : Nat × Mod) : List (Nat × Mod) → List (Nat × Mod)
-  | [] => [x]
-  | y :: ys => if x.1 < y.1 then x :: y :: ys else y :: insertByTime x ys
 
 def joinWith (sep : String) (xs : List String) : String := sep.intercalate xs
 
@@ -188,23 +184,29 @@ def declStep (st : St) (id : String) (i : Nat) (what : String) (path : Except Ob
     st := { st with rejects := st.rejects + 1 }
   return { st with b := b', spec := spec' }
 
-/-- expected `run` log from a module vector + lookup functions -/
-def expectedLog (mods : List Mod) (wake : Mod → Nat) (lenOf : Mod → Nat) (nameOf : Mod → String)
-    (parentOf : Mod → String) (kidsOf : Mod → String) (calls : List (Mod × Nat)) (ends : List Mod) :
-    List String × Nat := Id.run do
-  let _ := mods
-  let mut out : List String := []
-  let mut sched : List (Nat × Mod) := []
-  for (m, stage) in calls do
-    out := out ++ [s!"S:{pathTok m.path}:{stage}:0"]
-    if wake m > 0 then sched := insertByTime (wake m * (stage + 1), m) sched
-  let mut tend := 0
-  for (t, m) in sched do
-    out := out ++ [s!"M:{pathTok m.path}:{t}"]
-    tend := t
-  for m in ends do
-    out := out ++ [s!"E:{pathTok m.path}:{tend}:{lenOf m}:{nameOf m}:{parentOf m}:{kidsOf m}"]
-  return (out, sched.length)
+/-- expected `run` log: `ModTree.runWith` (= `Runtime::run`) over the abstract event set of C01/C03;
+    a scripted module schedules one self-message `wake*(stage+1)` ns ahead in every start stage and
+    its message handler schedules nothing -/
+def expectedLog (wake : Mod → Nat) (lenOf : Mod → Nat) (nameOf : Mod → String)
+    (parentOf : Mod → String) (kidsOf : Mod → String) (byNode : Nat → Option Mod)
+    (calls : List (Mod × Nat)) (ends : List Mod) : List String × Nat := Id.run do
+  let acts : Mod → Nat → List Rt.Act := fun m stage =>
+    if wake m > 0 then [⟨false, wake m * (stage + 1), m.id⟩] else []
+  let (s, log) := ModTree.runWith Rt.fesES [] (calls.length + 1) acts (Rt.build FES.init 0 .none) calls ends
+  let mut out : Array String := #[]
+  let mut nmsg := 0
+  for c in log do
+    match c with
+    | .start m stage => out := out.push s!"S:{pathTok m.path}:{stage}:0"
+    | .kernel (.handled node t) =>
+      nmsg := nmsg + 1
+      match byNode node with
+      | some m => out := out.push s!"M:{pathTok m.path}:{t}"
+      | none => out := out.push s!"M:?{node}:{t}"
+    | .kernel .internal => out := out.push "internal"
+    | .kernel _ => pure ()
+    | .stop m => out := out.push s!"E:{pathTok m.path}:{s.now}:{lenOf m}:{nameOf m}:{parentOf m}:{kidsOf m}"
+  return (out.toList, nmsg)
 
 def firstDiff (a b : List String) : String := Id.run do
   let mut i := 0
@@ -293,7 +295,7 @@ def runCase (c : Case) : String := Id.run do
         return s!"fail {id} op={i} kind=reject line=[{lhs}] spec=res=ok impl={res}"
       -- specification: stage-major over the declared pre-order, lookups from the declared tree
       if let some D := st.spec then
-        let toMod (d : SDecl) : Mod := ⟨0, ⟨render d.segs, 0, d.segs.length, false⟩, d.stages, none⟩
+        let toMod (d : SDecl) : Mod := ⟨D.idxOf d, ⟨render d.segs, 0, d.segs.length, false⟩, d.stages, none⟩
         let swakes := st.swakes
         let wakeOf (m : Mod) : Nat := ((swakes.find? (fun e => e.1 == m.path.data)).map (·.2)).getD 0
         let segsOf (m : Mod) : List Bytes := (wfSegs m.path.data).getD []
@@ -308,7 +310,8 @@ def runCase (c : Case) : String := Id.run do
           if ks.isEmpty then "-" else joinWith "," ks
         let calls := (PreSpec.startSpec D).map (fun c => (toMod c.1, c.2))
         let ends := (PreSpec.endSpec D).map toMod
-        let (exp, _) := expectedLog [] wakeOf (fun m => m.path.len) nameOf parentOf kidsOf calls ends
+        let (exp, _) := expectedLog wakeOf (fun m => m.path.len) nameOf parentOf kidsOf
+          (fun n => D[n]?.map toMod) calls ends
         if exp != got then
           return s!"fail {id} op={i} kind=reject line=[run] clause=callback-log {firstDiff exp got}"
       -- model
@@ -326,8 +329,8 @@ def runCase (c : Case) : String := Id.run do
       let kidsOf (m : Mod) : String :=
         let ks := pool.filterMap (fun n => (lookupChild b m n).map (fun c => s!"{strOf n}>{pathTok c.path}"))
         if ks.isEmpty then "-" else joinWith "," ks
-      let (exp, nmsg) := expectedLog b.mods wakeOf (fun m => m.path.len) nameOf parentOf kidsOf
-        (startCalls b.mods) (endCalls b.mods)
+      let (exp, nmsg) := expectedLog wakeOf (fun m => m.path.len) nameOf parentOf kidsOf
+        (byId b) (startCalls b.mods) (endCalls b.mods)
       if exp != got then
         return s!"fail {id} op={i} kind=diverge line=[run] clause=callback-log {firstDiff exp got}"
       st := { st with msgs := nmsg, starts := (startCalls b.mods).length }
